@@ -216,6 +216,26 @@ impl<C: Cursor> PruningCursor<C> {
             || (vis(self.s(), self.timestamp, self.retain_tombstones, c) && skip_is(self.skip_key, self.s()[c].key))
     }
 
+//@ extract sst/src/pruning_cursor.rs | impl PruningCursor<C> :: fn new
+//@ ret r
+//@ pre <<
+        cursor.wf_base(),
+//@ >>
+//@ post <<
+        r is Ok ==> r->Ok_0.wf() && r->Ok_0.pos() == -1 && r->Ok_0.s() == cursor.ents() && r->Ok_0.timestamp == timestamp && !r->Ok_0.retain_tombstones,
+//@ >>
+//@ end
+
+//@ extract sst/src/pruning_cursor.rs | impl PruningCursor<C> :: fn with_tombstones
+//@ ret r
+//@ pre <<
+        cursor.wf_base(),
+//@ >>
+//@ post <<
+        r is Ok ==> r->Ok_0.wf() && r->Ok_0.pos() == -1 && r->Ok_0.s() == cursor.ents() && r->Ok_0.timestamp == timestamp && r->Ok_0.retain_tombstones,
+//@ >>
+//@ end
+
 //@ extract sst/src/pruning_cursor.rs | impl PruningCursor<C> :: fn set_skip_key
 //@ pre <<
         old(self).cursor.wf(),
